@@ -89,6 +89,37 @@ def _os_fstat(fd):
 
 sim_os = _SimOSModule('os')
 sim_os.fstat = _os_fstat
+
+
+# `shutil` as seen by the s3transfer modules (the shipped code does not use it):
+# move() with shutil's own semantics - rename, and when that fails copy the file
+# over the destination and delete the source - on the SimFS of the running run
+import shutil as _real_shutil
+
+
+class _SimShutilModule(_types.ModuleType):
+    def __getattr__(self, k):
+        return getattr(_real_shutil, k)
+
+
+def _shutil_move(src, dst, *a, **k):
+    fs = _active_fs()
+    if fs is None:
+        return _real_shutil.move(src, dst, *a, **k)
+    try:
+        fs.rename(src, dst)
+    except OSError:
+        data = fs.files.get(src)
+        if data is None:
+            raise
+        fs.files[dst] = bytearray(data)
+        fs.mutated('create', dst)
+        fs.remove(src)
+    return dst
+
+
+sim_shutil = _SimShutilModule('shutil')
+sim_shutil.move = _shutil_move
 sim_os.posix_fallocate = _os_posix_fallocate
 sim_os.path = _SimOSPath('os.path')
 sim_os.path.getsize = _path_getsize
